@@ -190,6 +190,156 @@ func atomsOf(fn *ssa.Function, cd Cond, params bool) []relAtom {
 	return out
 }
 
+// predSum: conditions (DNF over parameter-rooted atoms) under which a pure boolean helper returns true / false
+// (func (w *writer) autoRelease() bool { return w.releaseState || w.releaseWriter }).
+type predSum struct {
+	t, f relDNF
+	ok   bool
+}
+
+func (ra *relAn) predOf(g *ssa.Function) *predSum {
+	if ps, ok := ra.preds[g]; ok {
+		return ps
+	}
+	ps := &predSum{}
+	ra.preds[g] = ps
+	if g == nil || g.Blocks == nil || g.Signature.Results().Len() != 1 {
+		return ps
+	}
+	if b, isB := g.Signature.Results().At(0).Type().Underlying().(*types.Basic); !isB || b.Kind() != types.Bool {
+		return ps
+	}
+	pure := true
+	allInstrs(g, func(i ssa.Instruction) {
+		switch i.(type) {
+		case *ssa.Store, ssa.CallInstruction, *ssa.MapUpdate, *ssa.Send:
+			pure = false
+		}
+	})
+	if !pure {
+		return ps
+	}
+	good := true
+	nPaths := 0
+	var walk func(b, from *ssa.BasicBlock, conj []relAtom, depth int)
+	walk = func(b, from *ssa.BasicBlock, conj []relAtom, depth int) {
+		if depth > 32 || nPaths > 32 {
+			good = false
+			return
+		}
+		switch x := b.Instrs[len(b.Instrs)-1].(type) {
+		case *ssa.Return:
+			nPaths++
+			v := x.Results[0]
+			if phi, ok := v.(*ssa.Phi); ok && phi.Block() == b && from != nil {
+				for j, p := range b.Preds {
+					if p == from {
+						v = phi.Edges[j]
+					}
+				}
+			}
+			if k, ok := v.(*ssa.Const); ok && k.Value != nil {
+				if k.Value.String() == "true" {
+					ps.t = append(ps.t, append([]relAtom{}, conj...))
+				} else {
+					ps.f = append(ps.f, append([]relAtom{}, conj...))
+				}
+				return
+			}
+			at := atomsOf(g, Cond{v, true}, true)
+			af := atomsOf(g, Cond{v, false}, true)
+			if len(at) == 0 || len(af) == 0 {
+				good = false
+				return
+			}
+			ps.t = append(ps.t, append(append([]relAtom{}, conj...), at...))
+			ps.f = append(ps.f, append(append([]relAtom{}, conj...), af...))
+		case *ssa.If:
+			for k, s := range b.Succs {
+				as := atomsOf(g, Cond{x.Cond, k == 0}, true)
+				if len(as) == 0 {
+					good = false
+					return
+				}
+				walk(s, b, append(append([]relAtom{}, conj...), as...), depth+1)
+			}
+		case *ssa.Jump:
+			walk(b.Succs[0], b, conj, depth+1)
+		default:
+			good = false
+		}
+	}
+	walk(g.Blocks[0], nil, nil, 0)
+	ps.ok = good && (len(ps.t) > 0 || len(ps.f) > 0)
+	return ps
+}
+
+// condDNF turns a branch condition into a DNF of atoms and names the instruction at which the condition was
+// evaluated (a predicate call may lie well before the branch that tests its result). pb is the block whose
+// terminator tests the condition.
+func (ra *relAn) condDNF(fn *ssa.Function, cd Cond, params bool, pb *ssa.BasicBlock) (relDNF, ssa.Instruction) {
+	v, truth := cd.V, cd.Truth
+	for {
+		u, ok := v.(*ssa.UnOp)
+		if !ok || u.Op != token.NOT {
+			break
+		}
+		v, truth = u.X, !truth
+	}
+	if call, ok := v.(*ssa.Call); ok {
+		if g := call.Call.StaticCallee(); g != nil {
+			if ps := ra.predOf(g); ps.ok {
+				src := ps.f
+				if truth {
+					src = ps.t
+				}
+				pre := ra.storesBefore(fn, call.Block(), instrIndex(call))
+				var out relDNF
+				for _, conj := range src {
+					var nc []relAtom
+					for _, a := range conj {
+						root, rest, _ := strings.Cut(a.Path, ".")
+						var idx int
+						if _, err := fmt.Sscanf(root, "p%d", &idx); err != nil || idx >= len(call.Call.Args) {
+							continue
+						}
+						base, _ := accessPath(fn, call.Call.Args[idx], params)
+						if base == "" {
+							continue
+						}
+						p := base
+						if rest != "" {
+							p += "." + rest
+						}
+						nc = append(nc, relAtom{Path: p, IsNil: a.IsNil, Val: a.Val, fld: a.fld, pre: pre})
+					}
+					out = append(out, nc)
+				}
+				if len(src) == 0 {
+					return nil, call // the predicate never has this value: the edge is infeasible (false)
+				}
+				if out.isTrue() {
+					return dnfTrue(), call
+				}
+				return out, call
+			}
+		}
+	}
+	as := atomsOf(fn, Cond{v, truth}, params)
+	if len(as) == 0 {
+		return dnfTrue(), nil
+	}
+	var at ssa.Instruction
+	if pb != nil {
+		pre := ra.storesBefore(fn, pb, len(pb.Instrs))
+		for k := range as {
+			as[k].pre = pre
+		}
+		at = pb.Instrs[len(pb.Instrs)-1]
+	}
+	return relDNF{as}, at
+}
+
 // reachCond computes a necessary condition for control to reach block b (back edges contribute "true").
 func (ra *relAn) reachCond(fn *ssa.Function, b *ssa.BasicBlock, params bool) relDNF {
 	memo := map[*ssa.BasicBlock]relDNF{}
@@ -208,12 +358,8 @@ func (ra *relAn) reachCond(fn *ssa.Function, b *ssa.BasicBlock, params bool) rel
 			d := rec(p)
 			if ifi, ok := p.Instrs[len(p.Instrs)-1].(*ssa.If); ok && p.Succs[0] != p.Succs[1] {
 				truth := p.Succs[0] == b
-				if as := atomsOf(fn, Cond{ifi.Cond, truth}, params); len(as) > 0 {
-					pre := ra.storesBefore(fn, p, len(p.Instrs))
-					for k := range as {
-						as[k].pre = pre
-					}
-					d = dnfAnd(d, relDNF{as})
+				if dn, _ := ra.condDNF(fn, Cond{ifi.Cond, truth}, params, p); !dn.isTrue() {
+					d = dnfAnd(d, dn)
 				}
 			}
 			acc = dnfOr(acc, d)
@@ -238,6 +384,7 @@ type relAn struct {
 	funcs  []*ssa.Function
 	mayRel map[*ssa.Function]map[string]relEntry
 	stores map[*ssa.Function]map[*types.Var]bool // fields stored by fn or its static callees (transitively)
+	preds  map[*ssa.Function]*predSum
 }
 
 func isPoolPut(cc *ssa.CallCommon) bool {
@@ -341,22 +488,48 @@ func (ra *relAn) storesBefore(fn *ssa.Function, b *ssa.BasicBlock, idx int) map[
 	return out
 }
 
+// factsAt: the conditions dominating block b as a conjunction of caller-rooted atoms (conditions that are proper
+// disjunctions contribute nothing). With before != nil only conditions evaluated at an instruction that dominates
+// `before` are kept (facts about the state before a release call, used for a use that comes after it).
+func (ra *relAn) factsAt(fn *ssa.Function, b *ssa.BasicBlock, before ssa.Instruction) []relAtom {
+	var out []relAtom
+	for c := b; c != nil; c = c.Idom() {
+		d := c.Idom()
+		if d == nil {
+			break
+		}
+		ifi, ok := d.Instrs[len(d.Instrs)-1].(*ssa.If)
+		if !ok || d.Succs[0] == d.Succs[1] {
+			continue
+		}
+		for k, s := range d.Succs {
+			if len(s.Preds) != 1 || !s.Dominates(c) {
+				continue
+			}
+			dn, at := ra.condDNF(fn, Cond{ifi.Cond, k == 0}, false, d)
+			if len(dn) != 1 || len(dn[0]) == 0 {
+				continue
+			}
+			if before != nil && (at == nil || !dominatesInstr(at, before)) {
+				continue
+			}
+			out = append(out, dn[0]...)
+		}
+	}
+	return out
+}
+
 // refuted: the facts dominating the call site contradict every disjunct of the callee condition.
-func (ra *relAn) refuted(fn *ssa.Function, call ssa.CallInstruction, cond relDNF) bool {
+func (ra *relAn) refuted(fn *ssa.Function, call ssa.CallInstruction, cond relDNF, extra ...relAtom) bool {
 	if cond.isTrue() {
 		return false
 	}
 	cc := call.Common()
 	cal := cc.StaticCallee()
-	// caller facts, rooted at SSA value names
-	type fact struct {
-		a    relAtom
-		load ssa.Instruction
-	}
-	var facts []relAtom
-	for _, cd := range pathConds(call.Block()) {
-		facts = append(facts, atomsOf(fn, cd, false)...)
-	}
+	// caller facts, rooted at SSA value names: conditions dominating the call (plus, for a particular later use,
+	// conditions dominating that use which were evaluated before the call)
+	facts := append([]relAtom{}, extra...)
+	facts = append(facts, ra.factsAt(fn, call.Block(), nil)...)
 	// a boolean/nil fact about a field load stays valid up to the call only if nothing in between may store the
 	// field; the caller-side loads dominate the call, so "nothing in between" is over-approximated by: the caller
 	// itself never stores the field before the call, and the callee does not store it either.
@@ -608,7 +781,7 @@ func aliasesOf(fn *ssa.Function, v ssa.Value) []ssa.Value {
 }
 
 func runR18_3(c *Ctx, r *R) {
-	ra := &relAn{c: c, stores: map[*ssa.Function]map[*types.Var]bool{}}
+	ra := &relAn{c: c, stores: map[*ssa.Function]map[*types.Var]bool{}, preds: map[*ssa.Function]*predSum{}}
 	for _, rel := range analysedPkgs {
 		ra.funcs = append(ra.funcs, c.SrcFuncs(rel)...)
 	}
@@ -675,7 +848,7 @@ func runR18_3(c *Ctx, r *R) {
 							}
 							continue
 						}
-						if after(i) {
+						if after(i) && !ra.useExcluded(fn, s.call, s.v, i) {
 							uses = append(uses, fmt.Sprintf("%s (%s)", what, c.pos(instrPos(i))))
 						}
 					}
@@ -699,6 +872,36 @@ func runR18_3(c *Ctx, r *R) {
 		}
 	}
 	r.Note("%d release sites; release summaries: %s", nRel, strings.Join(sums, "; "))
+}
+
+// useExcluded: the use at instruction `use` (after the may-release call) happens only under conditions that were
+// evaluated before the call and that refute every way the call could have released v
+// (auto := w.autoRelease(); w.close(); if auto { return }; w.free()).
+func (ra *relAn) useExcluded(fn *ssa.Function, call ssa.CallInstruction, v ssa.Value, use ssa.Instruction) bool {
+	cc := call.Common()
+	if isPoolPut(cc) {
+		return false
+	}
+	cal := cc.StaticCallee()
+	if cal == nil {
+		return false
+	}
+	extra := ra.factsAt(fn, use.Block(), call.(ssa.Instruction))
+	if len(extra) == 0 {
+		return false
+	}
+	n := 0
+	for _, k := range sortedKeys(ra.mayRel[cal]) {
+		e := ra.mayRel[cal][k]
+		if e.Param >= len(cc.Args) || cc.Args[e.Param] != v {
+			continue
+		}
+		n++
+		if !ra.refuted(fn, call, e.Cond, extra...) {
+			return false
+		}
+	}
+	return n > 0
 }
 
 // overwrittenBetween: a store to the field that ld loads lies on every path from the release call to ld
